@@ -8,7 +8,8 @@ PROP = "C11"
 MODEL_TARGETS = ["Corr/WriteShow.vo", "Proofs/SecondCycleCheck.vo"]
 THEOREMS = ["C11_second_write_same_text_partial", "C11_second_write_same_text_nowrap", "C11_standardize_idem", "C11_values_fixed", "C11_refreshed_is_text", "C11_refreshed_shapes", "C11_refresh_idem_values", "C11_data_tokens_fixed", "C11_cell_text_fixed", "C11_column_text_cycles", "C11_iter", "C11_iter_from_fix", "C11_reread_fixed_point_partial",
             "C11_read_canonical", "C11_canonical_determined", "C11_second_header", "C11_stable_itemb_ok", "C11_refresh_not_triggered", "C11_back_okb_of_Hfix", "C11_second_data_tokens", "C11_second_data_lines", "C11_second_cycle", "C11_cycle_fixed", "C11_cycles_same_text", "C11_cycles_iter",
-            "C11_second_header_same_lines", "C11_second_cycle_content_partial", "C11_content_okb_ok"]
+            "C11_second_header_same_lines", "C11_second_cycle_content_partial", "C11_content_okb_ok",
+            "C11_well_section_current", "C11_params_section_current", "C11_version_section_current", "C11_curves_section_current"]
 ASSUMPTIONS = [
     "oracle: float(fmt % x) is a fixed point of x -> float(fmt % x) (printing a printed value again gives the same text)",
     "spacers made of blanks/tabs are the domain of the writer model; option sets with another spacer (',', ';', '') go through the "
